@@ -453,9 +453,16 @@ class Machine:
         m = re.fullmatch(r"(?:\w+::)*(\w+)(?:::<[^>]*>)?::(\w+)", callee)
         if m:      # inherent method written as Type::method: resolve through the impl block that defines it for that receiver type
             ty, meth = m.group(1), m.group(2)
-            cands = [n for n, f in self.fns.items() if n.endswith("::" + meth) and "<impl at" in n and re.match(r"_1: &?(mut )?%s\b" % re.escape(ty), f.ptext)]
+            cands = [n for n, f in self.fns.items() if n.endswith("::" + meth) and "<impl at" in n and re.match(r"_1: &?(mut )?(?:\w+::)*%s\b" % re.escape(ty), f.ptext)]
             if len(cands) == 1:
                 return self.call(cands[0], argv, pc)
+        mo = re.fullmatch(r"(?:std::option::)?Option::<.*>::(as_ref|as_deref|is_some|is_none)", callee)
+        if mo:      # Option as {"disc": 0 None | 1 Some, 0: payload}
+            o = argv[0]
+            while hasattr(o, "get") and not isinstance(o, dict): o = o.get()
+            if mo.group(1) in ("as_ref", "as_deref"): return o
+            dsc = o["disc"]
+            return (dsc != 0) if mo.group(1) == "is_some" else (dsc == 0)
         if re.search(r"f64::<impl f64>::max$", callee) or re.search(r"f64>::max$", callee):
             a, b = argv
             return If(fpIsNaN(a), b, If(fpIsNaN(b), a, fpMax(a, b)))
